@@ -172,6 +172,14 @@ def explore_c03(rng, tier, res, deep=False):
         for qq in ("'", '"'):
             lit = qq + pt + qq
             qs += [f"$[?match(@.a, {lit})]", f"$[?search(@, {lit})]", f"$[?!match({lit}, {lit})]", f"$[?search(@.a, {lit}) || match(@.b, {lit})]"]
+    # flat chains of one logical operator, of every length from 2 to 64 and a few longer ones (however many times a parser
+    # re-reads a token per operand, the count grows with the chain), tests and comparisons, bare and parenthesised
+    for nterms in list(range(2, 65)) + [80, 100, 128]:
+        opx = "||" if nterms % 2 else "&&"
+        qs.append("$[?" + f" {opx} ".join(f"@.id == {i}" for i in range(nterms)) + "]")
+        if nterms % 3 == 0:
+            qs.append("$[?(" + f" {opx} ".join(f"@.k{i}" for i in range(nterms)) + ")]")
+            qs.append("$[?" + f"{opx}".join(f"!@.k{i}" for i in range(nterms)) + "]")
     compile_cases(res, FULL_ENV, qs, "C03", want="valid")
     other_environments_alongside(res)
 
@@ -493,6 +501,17 @@ def explore_c05(rng, tier, res, deep=False):
         for _ in range(per):
             qs.append("$[?" + g.logical_or(1) + "]" if rng.random() < 0.7 else g.query())
         compile_cases(res, desc, qs, "C05")
+    # a string LITERAL is a ValueType argument whatever its text: match()/search() with literal patterns that are not valid
+    # I-Regexps, that regular-expression engines reject, or that are very long are WELL-TYPED (they select nothing when
+    # evaluated) — validity of the pattern is not a typing rule
+    hostile = ["a(", "(", ")", "[", "]", "a]", "*", "+", "?", "a**", "\\\\d+", "\\\\", "(?:x)", "(?i)a", "a{2,1}", "[z-a]", "\\\\p{Xx}", "[^]", "x{99999999999}", "a|", "", "a" * 1200, "(" * 40 + "a" + ")" * 40, "^a$"]
+    lits = []
+    for pt in hostile:
+        for qq in ("'", '"'):
+            lit = qq + pt + qq
+            lits += [f"$[?match(@.a, {lit})]", f"$[?search(@.a, {lit})]", f"$[?!match(@.a, {lit})]", f"$[?match(@.a, {lit}) || @.a == 1]", f"$[?count(@[?search(@, {lit})]) == 0]",
+                     f"$[?match({lit}, @.a)]", f"$[?search({lit}, {lit})]"]
+    compile_cases(res, FULL_ENV, lits, "C05")
     # arguments that are logical expressions in shape — negations, double negations, parentheses around a query or a
     # call — in ValueType / NodesType / LogicalType parameter positions of the built-ins and of probe functions:
     # `!(!q)` and `(q)` are LogicalType whatever they could be rewritten to
